@@ -17,12 +17,13 @@ FAMILIES = [
     (r'^trait ScancodeSet', ['stream2', 'stream1']),
     (r'^(EventDecoder::|KeyEvent::)', ['events']),
     (r'^Keyboard::(process_keyevent|get_modifiers|set_ctrl_handling|get_ctrl_handling)', ['events', 'keyboard2']),
-    (r'^Keyboard::', ['keyboard2', 'keyboard1', 'bits']),
+    (r'^Keyboard::', ['bits', 'keyboard2', 'keyboard1']),
     (r'^KeyboardLayout for ', ['layout_total']),
     (r'^C05/', ['word', 'bits']), (r'^C06/', ['bits']), (r'^C04/', ['events']), (r'^C14/', ['events']),
     (r'^C18/', ['keyboard2', 'keyboard1']), (r'^C07/.*set1', ['stream1']), (r'^C07/', ['stream2', 'stream1']),
     (r'^C01/', ['stream2']), (r'^C02/', ['stream1']), (r'^C19/.*set1', ['stream1']), (r'^C19/', ['stream2', 'stream1']),
 ]
+KANI_FAST = ('word', 'bits', 'events')
 NARGS = {'word': 1, 'bits': 3, 'stream1': 5, 'stream2': 5, 'events': 8, 'keyboard1': 8, 'keyboard2': 8, 'layout_total': 5}
 
 
@@ -56,6 +57,9 @@ def find(prop, failure, R, info, binpath, timeout=600):
     d, text, npred = kani.prepare(info, subdir='cex')
     tried = []
     for sc in scs:
+        if sc not in KANI_FAST:
+            tried.append({'scenario': sc, 'kani': 'skipped: CBMC needs minutes to hours (or exhausts memory) on this scenario in this sandbox; native sweep used instead'})
+            continue
         r, out = kani.run_harness(d, 'cex::' + sc, extra_args=['-Z', 'concrete-playback', '--concrete-playback=print'], timeout=timeout)
         tried.append({'scenario': sc, 'kani_ok': r['ok'], 'kani_failed': r['failed'], 'wall_s': r['wall_s']})
         if not r['failed']:
@@ -80,8 +84,19 @@ def find(prop, failure, R, info, binpath, timeout=600):
             'kani_scenarios_tried': tried,
             'counterexample_search': None if reproduced else 'Kani produced values but the native run agrees with the specification',
         }
+    # Kani gave nothing (or the scenario is beyond CBMC's reach here): native sweeps of the same scenarios
+    from . import standin
+    for sc in scs:
+        args = {'word': ['words'], 'bits': ['bits'], 'stream1': ['stream', '1'], 'stream2': ['stream', '2'], 'events': ['events'],
+                'keyboard1': ['keyboard', '1'], 'keyboard2': ['keyboard', '2'], 'layout_total': ['total']}[sc]
+        line = standin.sweep(binpath, args)
+        tried.append({'native_sweep': ' '.join(args), 'result': line[:160]})
+        if line.startswith('FAILS'):
+            h = standin.hit_from_sweep(prop, binpath, args, line)
+            h['extra']['kani_scenarios_tried'] = tried
+            return h['extra']
     return {'counterexample': None, 'kani_scenarios_tried': tried,
-            'counterexample_search': 'Kani found no failing input in the bounded scenarios %s' % ', '.join(scs)}
+            'counterexample_search': 'neither Kani nor the native sweeps found a failing input in the scenarios %s' % ', '.join(scs)}
 
 
 def replay(rec, binpath):
